@@ -54,5 +54,5 @@ Values == UNION {FamSet(f) : f \in Fams}
 Init == v \in Values
 Next == UNCHANGED v
 WellFormed == Valid(v) /\ RT(v, v)
-Emit == PrintT(ToJson([v |-> v, tie |-> TieClass(v)]))
+Emit == PrintT(ToJson([v |-> v]))
 =============================================================================
